@@ -608,8 +608,8 @@ def write_programs(path, designs):
 # ---------------------------------------------------------------------------
 # decorations (property C11): behaviour-neutral rewrites of a design program
 # ---------------------------------------------------------------------------
-DEF_OPS = {"lit", "not", "bin", "slice", "bit", "zext", "oext", "sext", "mux", "var", "reg", "xovr", "memread"}
-MUT_OPS = {"set", "setslice", "setbit", "close", "loopvar"}
+DEF_OPS = {"lit", "not", "bin", "slice", "bit", "zext", "oext", "sext", "mux", "var", "reg", "xovr", "memread", "memreadf"}
+MUT_OPS = {"set", "setslice", "setbit", "close", "loopvar", "membind"}
 
 
 def decorate(lines, seed):
